@@ -85,3 +85,49 @@ func keysOutOfRange(start, end []byte) bool {
 	// Both keys have been set now check if start > end.
 	return bytes.Compare(start, end) > 0
 }
+
+// validateRowFilter rejects a filter with invalid arguments anywhere in the expression, whether
+// or not the data would cause that part of the expression to be evaluated.
+func validateRowFilter(f *btpb.RowFilter) error {
+	if f == nil {
+		return nil
+	}
+	switch f := f.Filter.(type) {
+	case *btpb.RowFilter_Chain_:
+		if len(f.Chain.GetFilters()) < 2 {
+			return status.Errorf(codes.InvalidArgument, "Chain must contain at least two RowFilters")
+		}
+		for _, sub := range f.Chain.Filters {
+			if err := validateRowFilter(sub); err != nil {
+				return err
+			}
+		}
+	case *btpb.RowFilter_Interleave_:
+		if len(f.Interleave.GetFilters()) < 2 {
+			return status.Errorf(codes.InvalidArgument, "Interleave must contain at least two RowFilters")
+		}
+		for _, sub := range f.Interleave.Filters {
+			if err := validateRowFilter(sub); err != nil {
+				return err
+			}
+		}
+	case *btpb.RowFilter_Condition_:
+		for _, sub := range []*btpb.RowFilter{f.Condition.GetPredicateFilter(), f.Condition.GetTrueFilter(), f.Condition.GetFalseFilter()} {
+			if err := validateRowFilter(sub); err != nil {
+				return err
+			}
+		}
+	case *btpb.RowFilter_RowSampleFilter:
+		if f.RowSampleFilter <= 0.0 || f.RowSampleFilter >= 1.0 {
+			return status.Error(codes.InvalidArgument, "row_sample_filter argument must be between 0.0 and 1.0")
+		}
+	default:
+		// Leaf filters carry their own argument checks: evaluating the filter on a probe row
+		// with a single empty cell reports invalid arguments without touching any data.
+		probe := &btpb.Row{Families: []*btpb.Family{{Columns: []*btpb.Column{{Cells: []*btpb.Cell{{}}}}}}}
+		if _, err := filterRow(&btpb.RowFilter{Filter: f}, probe); err != nil {
+			return err
+		}
+	}
+	return nil
+}
